@@ -89,6 +89,8 @@ def _gen_marathon(rng):
         p = dict(base, seed=rng.choice([base["seed"], 1000 + rng.randint(0, 50)]), lt=rng.choice([base["lt"], pools.pct(rng)]))
         if r < 0.8:
             opl.append({"op": "board", "params": p})
+            if rng.random() < 0.2:
+                opl[-1]["scribble"] = True
         elif r < 0.9:
             opl.append({"op": "tenant", "what": rng.choice(["seed", "draw", "shuffle"]), "arg": rng.randint(0, 2 ** 32), "n": rng.randint(1, 20)})
         else:
@@ -118,6 +120,8 @@ def gen(rng, tier, ctx):
         p = rng.choice(psets)
         if r < 0.4:
             op = {"op": "board", "params": p}
+            if rng.random() < 0.3:
+                op["scribble"] = True       # the caller edits the board it got (hand-made variant workflow)
             if rng.random() < 0.4:
                 op["env"] = {"pollute": rng.randint(0, 2 ** 32)}
             if rng.random() < 0.1:
@@ -274,6 +278,8 @@ def execute(spec, w, ctx):
                         lo = out["value"][2]
                         n = p["width"] * p["length"]
                         agg.append([p["seed"], p["lt"], n, sum(sum(r_) for r_ in lo)])
+            if op.get("scribble") and out["status"] == "ok":
+                w.fired("caller-edits-returned-value", ops.scribble(out["value"]))
         elif kind == "gen_cli":
             cfg = common.env_cfg(op)
             if op.get("fs_faults"):
